@@ -197,8 +197,11 @@ HasInitialProduct ==
     IF "prod" \in DOMAIN par THEN par["prod"][1] > 0
     ELSE IF "p" \in DOMAIN par THEN par["p"][1] > 0 ELSE FALSE
 Regime == SlopeSign(InitialSlope(fn, par)[1])
-(* the size of the problem (largest argument, at least 1): absolute tolerances are relative to it *)
-Scale == LET S == { par[k] : k \in DOMAIN par } \cup {QOne} IN CHOOSE m \in S : \A x \in S : QLe(x, m)
+(* the size of the problem: the largest initial / feed concentration among the arguments (rate  *)
+(* constants and times are not concentrations).  Absolute tolerances are relative to it.         *)
+ConcArgs(f) == LET m == Mech(f) IN { m.c0[s] : s \in DOMAIN m.c0 } \cup (IF m.flow THEN { m.feed[s] : s \in DOMAIN m.feed } ELSE {})
+Scale == LET S == { par[k] : k \in ConcArgs(fn) \cap DOMAIN par }
+         IN  CHOOSE m \in S : \A x \in S : QLe(x, m)
 Class == fn \o (IF HasInitialProduct THEN ":p+" ELSE ":p0") \o ":" \o Regime \o ":" \o backend
           \o (IF dt = QZero THEN ":t0" ELSE "")
 CaseRec ==
